@@ -499,6 +499,25 @@ def c18() -> List[M]:
     ]
 
 
+def c20() -> List[M]:
+    return [
+        M("C20", "voltage-caches-last-value", S, "    def read_value(self, data: ProtocolResponse):\n        return read_voltage(data)\n", "    def read_value(self, data: ProtocolResponse):\n        self.last_value = read_voltage(data)\n        return self.last_value\n", "C20.R1"),
+        M("C20", "calculated-caches-result", S, "    def read(self, data: ProtocolResponse):\n        return self._getter(data)", "    def read(self, data: ProtocolResponse):\n        self._last = self._getter(data)\n        return self._last", "C20.R1"),
+        M("C20", "decimal-encode-rescales-definition", S, "        return int.to_bytes(int(float(value) * self.scale), length=2, byteorder=\"big\", signed=True)", "        self.scale = int(self.scale)\n        return int.to_bytes(int(float(value) * self.scale), length=2, byteorder=\"big\", signed=True)", "C20.R1"),
+        M("C20", "timestamp-read-returns-self", S, "    def read_value(self, data: ProtocolResponse):\n        return read_datetime(data)", "    def read_value(self, data: ProtocolResponse):\n        self.value = read_datetime(data)\n        return self", "C20.R1"),
+        M("C20", "et-sets-schedule-type-directly", ET, "            eco_mode.set_schedule_type(ScheduleType.ECO_MODE, is_745_platform(self))", "            eco_mode.schedule_type = ScheduleType.ECO_MODE", "C20.R1"),
+        M("C20", "dt-settings-shared-dict", DT, "        self._settings: dict[str, Sensor] = {s.id_: s for s in self.__all_settings}", "        self._settings: dict[str, Sensor] = DT_SHARED_SETTINGS", "C20.R2",
+          also=[(DT, "logger = logging.getLogger(__name__)\n", "logger = logging.getLogger(__name__)\nDT_SHARED_SETTINGS: dict = {}\n")]),
+        M("C20", "es-class-level-list-mutated", ES, "        response = await self._read_from_socket(self._READ_DEVICE_RUNNING_DATA)\n", "        response = await self._read_from_socket(self._READ_DEVICE_RUNNING_DATA)\n        self._history.append(response)\n", "C20.R2",
+          also=[(ES, '    _READ_DEVICE_SETTINGS_DATA: ProtocolCommand = Aa55ProtocolCommand("010900", "0189")\n', '    _READ_DEVICE_SETTINGS_DATA: ProtocolCommand = Aa55ProtocolCommand("010900", "0189")\n    _history: list = []\n')]),
+        M("C20", "et-mutates-label-table", ET, "        self.modbus_version = read_unsigned_int(response, 0)\n", "        self.modbus_version = read_unsigned_int(response, 0)\n        PV_MODES[3] = 'Unknown'\n", "C20.R3"),
+        M("C20", "protocol-second-global", P, "def _next_tx() -> bytes:\n    global _modbus_tcp_tx\n", "_last_host = None\n\n\ndef _remember(host):\n    global _last_host\n    _last_host = host\n\n\ndef _next_tx() -> bytes:\n    global _modbus_tcp_tx\n", "C20.R3"),
+        M("C20", "aa55-request-bytes-mutates", P, "    def trim_response(self, raw_response: bytes):\n        \"\"\"Trim raw response from header and checksum data\"\"\"\n        return raw_response[7:-2]\n",
+          "    def trim_response(self, raw_response: bytes):\n        \"\"\"Trim raw response from header and checksum data\"\"\"\n        return raw_response[7:-2]\n\n    def request_bytes(self) -> bytes:\n        self.request = bytes(self.request)\n        return self.request\n", "C20.R4|C20.R1"),
+        M("C20", "benign-voltage-pure-helper-method", S, "    def read_value(self, data: ProtocolResponse):\n        return read_voltage(data)\n", "    def read_value(self, data: ProtocolResponse):\n        value = read_voltage(data)\n        return value\n", "clean"),
+    ]
+
+
 def corpus() -> List[M]:
     out: List[M] = []
     for name, fn in sorted(globals().items()):
